@@ -131,6 +131,24 @@ def cmd_replay(args):
         say("MACHINERY: build failed\n%s" % str(e)[:4000])
         return 2
     case = j.get("case", j)
+    if j.get("block_replay"):
+        br = j["block_replay"]
+        want = j.get("class")
+        if j.get("differential_with"):
+            B.build(j["differential_with"])
+            _, d0 = R.block_replay(variant, j["property"], j.get("tier", "quick"), j["origin_seed"], br["part"], br["start"], br["run"], want_digest=True)
+            _, d1 = R.block_replay(j["differential_with"], j["property"], j.get("tier", "quick"), j["origin_seed"], br["part"], br["start"], br["run"], want_digest=True)
+            say("outcome digest of run %s: %s=%s %s=%s" % (br["run"], variant, d0, j["differential_with"], d1))
+            hit = d0 is not None and d1 is not None and d0 != d1
+        else:
+            classes, _ = R.block_replay(variant, j["property"], j.get("tier", "quick"), j["origin_seed"], br["part"], br["start"], br["run"])
+            say("observed classes at run %s: %s" % (br["run"], classes))
+            hit = want in classes
+        if hit:
+            say("REPRODUCED property=%s class=%s" % (j.get("property"), want))
+            return 1
+        say("no violation on this tree")
+        return 0
     classes, raw = R.evaluate_case(variant, case, want_log=True, timeout=600)
     for line in (raw.get("out", {}) or {}).get("log", []):
         say(line)
